@@ -8,7 +8,7 @@
  *     out are pairwise disjoint, the final size is the initial size plus the successful deltas, a grow fails only when it would not fit,
  *     the size never goes down for an observer),
  *   - two threads add 1 to one cell with i32.atomic.rmw.add (C16: no update is lost, whatever the growers do),
- *   - one thread waits on another cell (3 s time-out) and the main thread notifies that address until somebody was woken (C17: the
+ *   - one thread waits on another cell (30 s time-out) and the main thread notifies that address until somebody was woken (C17: the
  *     notify counts exactly the one waiter, the waiter returns 0).
  * usage: shared_module <rounds> */
 #include <stdio.h>
@@ -61,7 +61,7 @@ static void* sizer(void* a) { U32 last = INIT; (void)a; pthread_barrier_wait(&ba
 static void* adder(void* a) { long me = (long)a; int i; pthread_barrier_wait(&bar);
     for (i = 0; i < NADD; i++) sm_add(inst[me], 256, 1);
     return NULL; }
-static void* waiter(void* a) { (void)a; pthread_barrier_wait(&bar); wait_result = (long)sm_wait(inst[7], 128, 0, 3000); return NULL; }
+static void* waiter(void* a) { (void)a; pthread_barrier_wait(&bar); wait_result = (long)sm_wait(inst[7], 128, 0, 30000); return NULL; }
 int main(int argc, char** argv) {
     long rounds = argc > 1 ? atol(argv[1]) : 10, r, dup = 0, badfinal = 0, range = 0, lost = 0, badwait = 0, badnotify = 0; pthread_t th[NT]; long t;
     for (r = 0; r < rounds; r++) {
@@ -83,8 +83,8 @@ int main(int argc, char** argv) {
         pthread_create(&th[5], NULL, adder, (void*)5L); pthread_create(&th[6], NULL, adder, (void*)6L);
         pthread_create(&th[7], NULL, waiter, NULL);
         pthread_barrier_wait(&bar);
-        /* notify until the waiter was counted (it may not be asleep yet), at most 2.5 s */
-        while (woken == 0 && tries++ < 1250) { struct timespec ts; ts.tv_sec = 0; ts.tv_nsec = 2000000; woken += sm_notify(&root, 128, 1); if (!woken) nanosleep(&ts, NULL); }
+        /* notify until the waiter was counted (it may not be asleep yet), at most 25 s (a loaded machine may start threads late) */
+        while (woken == 0 && tries++ < 12500) { struct timespec ts; ts.tv_sec = 0; ts.tv_nsec = 2000000; woken += sm_notify(&root, 128, 1); if (!woken) nanosleep(&ts, NULL); }
         for (t = 0; t < 4; t++) pthread_join(th[t], NULL);
         pthread_join(th[5], NULL); pthread_join(th[6], NULL); pthread_join(th[7], NULL);
         stop = 1; pthread_join(th[4], NULL);
